@@ -295,6 +295,31 @@ func driveRend(args []string) error {
 			}
 			viaRasterLogger = false
 			if fam == "geometry" {
+				// close-and-move operations whose target coincides with the pen, or with the start of the sub-path
+				for ci, cfg := range []rendCfg{cfgs[0], cfgs[7], cfgs[2]} {
+					for v := 0; v < 6; v++ {
+						prog := []Call{resetCall(cfg.vb, defaultPal()), mkCall("StartPath", 1, 2), mkCall("AbsLineTo", 5, 2), mkCall("RelLineTo", -1, 6)} // pen (4, 8)
+						switch v {
+						case 0:
+							prog = append(prog, mkCall("ClosePathAbsMoveTo", 4, 8)) // onto the pen
+						case 1:
+							prog = append(prog, mkCall("ClosePathAbsMoveTo", 1, 2)) // onto the sub-path start
+						case 2:
+							prog = append(prog, mkCall("ClosePathRelMoveTo", 0, 0)) // relative to the sub-path start: stays there
+						case 3:
+							prog = append(prog, mkCall("ClosePathRelMoveTo", 3, 6)) // relative to the start: lands on the old pen
+						case 4:
+							prog = append(prog, mkCall("ClosePathAbsMoveTo", 4, 8), mkCall("ClosePathAbsMoveTo", 4, 8)) // twice
+						case 5:
+							prog = append(prog, mkCall("AbsLineTo", 1, 2), mkCall("ClosePathAbsMoveTo", 1, 2)) // pen already back at the start
+						}
+						prog = append(prog, mkCall("RelLineTo", 2, 0), mkCall("RelLineTo", 0, 2), mkCall("ClosePathEndPath"))
+						t := newTracedRenderer(sh.Next(), fmt.Sprintf("closemove/%d/%d", ci, v), cfg.rect)
+						runProg(t, prog)
+						stats["geometry.programs"]++
+						stats["geometry.calls"] += t.n
+					}
+				}
 				// viewBoxes far from the origin under a large non-dyadic scale: the programs are shrunk and moved next to
 				// the viewBox, so scale * coordinate is large while scale * (coordinate - viewBox minimum) is not
 				for i := 0; i < *n/4+2; i++ {
@@ -519,7 +544,7 @@ func genVMProgram(r *rand.Rand, vb [4]float32, height int) []Call {
 			case 8:
 				// a gradient: stops at base b
 				b := []int{0, 10, 58, 60, 63, r.Intn(64)}[r.Intn(6)]
-				ns := []int{0, 1, 2, 3, 5, 9}[r.Intn(6)]
+				ns := []int{0, 1, 2, 3, 5, 9, 58, 59, 60, 63}[r.Intn(10)]
 				prog = append(prog, sel("SetCSel", b), sel("SetNSel", b))
 				off := 0
 				for s := 0; s < ns; s++ {
@@ -531,7 +556,13 @@ func genVMProgram(r *rand.Rand, vb [4]float32, height int) []Call {
 					}
 					cc.Incr = 1
 					step := 1 + r.Intn(20)
-					if r.Intn(8) == 0 {
+					if ns > 9 {
+						step = 1 + r.Intn(2) // many stops: small steps, so that the offsets stay within [0,1]
+						if off+step+(ns-1-s) > 120 {
+							step = 1
+						}
+					}
+					if r.Intn(8) == 0 && (ns <= 9 || r.Intn(8) == 0) {
 						step = 0 // not strictly increasing
 					}
 					off += step
